@@ -1,7 +1,7 @@
 SPECIFICATION Spec
 CONSTANTS
   AsCoded = FALSE
-  C11Keys = {"", "0", "1", "2", "5", "-1", "+1", "007", "x", "1001"}
+  C11Keys = {"", "0", "1", "2", "5", "-1", "+1", "007", "x", "1001", "9223372036854775807", "9223372036854775808"}
   C11Tombs <- TombsSome
   C11MaxLen = 2
   DoPairs = TRUE
